@@ -309,7 +309,7 @@ def check_budget_stop_ends_batch(ctx, facts, fn_name="batch_read_for_topic", rid
             else:
                 ctx.ok(rid, F, "no push is reachable after the budget stop", fn.relfile, fn.term(e[0]).get("line"))
     ctx.floor(rid, "budget stop edges", n, 1)
-    ctx.floor(rid, "range-cut stop edges", len(cuts), 2)
+    ctx.floor(rid, "range-cut stop edges", len(cuts), 1)
 
 
 def _value_only_under(b, local, value, edges, so_keys, depth=0, seen=None):
@@ -404,6 +404,30 @@ def check_first_entry_widening(ctx, facts, fn_name="batch_read_for_topic", rid="
             if kind == "assign" and node["rv"]["k"] == "use" and op_local(b.resolve_copy(node["rv"]["op"])) == big and b.edge_guards(T.true_edge, site.bb):
                 widen = (T, big, site)
     if widen is None:
+        # `want = want.max(required)` / `cmp::max(want, required)`: the same widening without a branch
+        class _Tw:
+            pass
+        for c in b.calls(re.compile(r"cmp::Ord::max$|cmp::max$|::max$")):
+            if len(c.node["args"]) != 2 or c.node["dest"]["p"]:
+                continue
+            ls = [op_local(b.resolve_copy(a)) for a in c.node["args"]]
+            if want not in ls:
+                continue
+            big = ls[1] if ls[0] == want else ls[0]
+            if big is None:
+                continue
+            # the result must be what `want` holds afterwards
+            dl = c.node["dest"]["l"]
+            flows = dl == want or any(kind == "assign" and node["rv"]["k"] == "use" and op_local(b.resolve_copy(node["rv"]["op"])) == dl for site, kind, node in b.defs.get(want, []))
+            if not flows:
+                continue
+            src_big, _, _ = origins(b, {"k": "copy", "place": {"l": big, "p": []}})
+            if not any(o.kind == "field" and isinstance(o.what, tuple) and o.what[1] == "read_size" for o in src_big):
+                continue   # e.g. want.max(first_end_hint - cur_off) on the offset-addressed arm
+            tw = _Tw()
+            tw.bb = c.bb
+            widen = (tw, big, c)
+    if widen is None:
         ctx.violate(rid, F, "no-first-entry-widening", b.relfile, b.term(T0.bb)["line"],
                     "the planned range is never widened to the size of the entry at the cursor: an entry larger than the byte budget can never be delivered")
         return
@@ -461,12 +485,81 @@ def check_first_entry_widening(ctx, facts, fn_name="batch_read_for_topic", rid="
     so_some = option_edges(b, flag_places(b, "start_offset"), want_none=False)
     P = facts.const_val("config::PREFIX_META_SIZE")
     n = 0
+
+    def cmp_why(T):
+        if T is None or T.kind != "cmp":
+            return None
+        ea, eb = show(strip_refs(expr(b, T.a)), 6), show(strip_refs(expr(b, T.b)), 6)
+        if ".used" in ea + eb and str(P) in ea + eb:
+            return "header does not fit into the block's used bytes"
+        if "BitOr(" in ea and (const_of(b, T.b) == 0 or eb in ("Sub(%d, 2)" % P, str(P - 2))):
+            return "invalid header length"
+        return None
+
+    def none_defs(local, depth=0, seen=None):
+        """sites that create the None that `local` may hold (through moves; an inlined helper's return value)"""
+        seen = seen if seen is not None else set()
+        if local in seen or depth > 6:
+            return None
+        seen.add(local)
+        out_ = []
+        for site, kind, node in b.defs.get(local, []):
+            if kind == "call" and re.search(r"FromResidual.*::from_residual$|::from_residual$", callee_name(node)):
+                out_.append(site)   # `?` on an Option: the None of the operand is passed on
+                continue
+            if kind != "assign":
+                return None
+            rv = node["rv"]
+            if rv["k"] == "agg" and rv.get("akind") == "adt" and str(rv.get("name", "")).endswith("Option"):
+                if rv.get("variant") in ("None", 0):
+                    out_.append(site)
+            elif rv["k"] == "use" and op_local(rv["op"]) is not None:
+                sub = none_defs(op_local(rv["op"]), depth + 1, seen)
+                if sub is None:
+                    return None
+                out_ += sub
+            elif rv["k"] == "use" and rv["op"].get("k") == "const":
+                out_.append(site)   # a constant Option (None)
+            else:
+                return None
+        return out_
+
+    def innermost_guard(bb):
+        tests = []
+        for T in all_tests(b):
+            for e_ in [T.true_edge, T.false_edge] + list(T.variant_edges.values()):
+                if e_ and b.edge_guards(e_, bb):
+                    tests.append((T, e_))
+        for T, e_ in tests:
+            if all(e2 == e_ or b.edge_guards(e2, e_[0]) for _, e2 in tests):
+                return T, e_
+        return None, None
+
     for e in out:
         n += 1
         T, which = classify_edge(b, e)
         line = b.term(e[0]).get("line")
         why = None
-        if T is not None and T.kind == "local" and which in ("false", "true"):
+        if so_some and any(b.edge_guards(se, e[0]) for se in so_some):
+            why = "taken only by an offset-addressed read (start_offset = Some)"
+        elif T is not None and T.kind == "discr" and not T.place["p"] and b.local_ty(T.place["l"]).startswith("std::option::Option"):
+            # `if let Some(size) = <helper>(..)`: every None the helper can return must itself be one of the accepted reasons
+            nd = none_defs(T.place["l"])
+            if nd:
+                reasons = []
+                for site in nd:
+                    Tg, eg = innermost_guard(site.bb)
+                    r_ = cmp_why(Tg)
+                    if r_ is None and Tg is not None and Tg.kind == "discr":
+                        dsrc, _, _ = origins(b, {"k": "copy", "place": Tg.place}, follow_all_calls=True)
+                        if any(o.kind == "call" and re.search(r"::deserialize$", strip_generics(o.what)) for o in dsrc):
+                            r_ = "header decode failed"
+                    reasons.append(r_)
+                if all(reasons):
+                    why = "no usable header at the cursor (%s)" % "; ".join(sorted(set(reasons)))
+        if why:
+            pass
+        elif T is not None and T.kind == "local" and which in ("false", "true"):
             fl = op_local(b.resolve_copy(T.operand))
             if fl is not None and b.local_ty(fl) == "bool":
                 bad = _value_only_under(b, fl, which == "true", so_some, flag_places(b, "start_offset"))
@@ -497,7 +590,7 @@ def check_first_entry_widening(ctx, facts, fn_name="batch_read_for_topic", rid="
                 desc = "%s test is %s" % (T.kind, which)
             ctx.violate(rid, F, "first-entry-widening-skipped", b.relfile, line,
                         "when nothing is planned yet, the widening of the planned range to the first entry's size can be skipped when %s: the range may end inside the first entry" % desc)
-    ctx.floor(rid, "bypass edges of the first-entry widening", n, 4)
+    ctx.floor(rid, "bypass edges of the first-entry widening", n, 1)
 
 
 def run(ctx):
